@@ -616,6 +616,12 @@ class TermBuilder:
         if isinstance(tgt, ast.Name):
             cont = self.term(it, hdr)
             isym = Sym("$" + name)
+            if isinstance(cont, Idx) and len(cont.idx) == 1 and isinstance(cont.idx[0], Attr) and cont.idx[0].name == "member_points":
+                # rows selected by an index list: `for x in data[members]` visits data[members[k]] for k in range(len(members))
+                sel = cont.idx[0]
+                self.loopvars[isym.key] = ("index", sel, st)
+                self.ranks.set(isym, 0)
+                return tm.index(cont.base, (tm.index(sel, (isym,), self.ranks),), self.ranks)
             self.loopvars[isym.key] = ("index", cont, st)
             self.ranks.set(isym, 0)
             return tm.index(cont, (isym,), self.ranks)
@@ -1137,12 +1143,63 @@ class TermBuilder:
         n = tm.length(t)
         return None if (isinstance(n, App) and n.fn == "len") else n
 
+    def _row_length(self, t: T, at) -> Optional[T]:
+        """len() of an elementwise combination of rows of 2-D arrays (`F[i+1] + A[i+1] + b[i]`): the number of columns, when every
+        array-valued operand is a row of a rank-2 array and all of them have the same column count."""
+        def cols(base: T) -> Optional[T]:
+            if not isinstance(base, Sym) or self.ranks.ranks.get(base.key) != 2:
+                return None
+            if base.name in self.fi.own_params:
+                return Idx(Attr(base, "shape"), (tm.ONE,))
+            defs = [n for n in self.cfg.nodes if n.kind == "stmt" and isinstance(n.ast, ast.Assign) and base.name in n.defs]
+            if len(defs) != 1 or not isinstance(defs[0].ast.value, ast.Call):
+                return None
+            a = self.term(defs[0].ast.value, defs[0])
+            if isinstance(a, App) and a.fn in ("numpy.zeros", "numpy.ones", "numpy.empty") and (a.args or a.kwarg("shape") is not None):
+                shp = a.args[0] if a.args else a.kwarg("shape")
+                if isinstance(shp, (Lst, Tup)) and len(shp.elems) == 2:
+                    return tm.as_term(shp.elems[1])
+                if isinstance(shp, Attr) and shp.name == "shape":
+                    return cols(shp.base) if isinstance(shp.base, Sym) else None
+            return None
+        found = []
+        atoms = [a_ for mono, _c in t.terms for a_, _e in mono] if isinstance(t, Poly) else [t]
+        if isinstance(t, Poly) and any(len(mono) > 1 or any(e_ != 1 for _a, e_ in mono) for mono, _c in t.terms):
+            return None
+        for a_ in atoms:
+            if isinstance(a_, Idx) and len(a_.idx) == 1 and not isinstance(a_.idx[0], Slc):
+                r_ = self.ranks.ranks.get(a_.base.key) if isinstance(a_.base, Sym) else None
+                if r_ == 2:
+                    c_ = cols(a_.base)
+                    if c_ is None:
+                        return None
+                    found.append(c_)
+                elif r_ == 1:
+                    continue                 # an element of a vector: a scalar, it broadcasts
+                elif not isinstance(a_.base, Sym) and any(isinstance(x, App) and x.fn in ("numpy.zeros", "numpy.ones") and x.args and
+                                                           isinstance(x.args[0], (Lst, Tup)) and len(x.args[0].elems) == 1 for x in tm.subterms(a_.base)):
+                    continue                 # an element of `scalar-or-vector + np.zeros((n,))`: a scalar as well
+                else:
+                    return None
+            else:
+                return None
+        if found and all(x == found[0] for x in found):
+            return found[0]
+        return None
+
     def _t_Call(self, e: ast.Call, at):
         c = self.ana.res.callee(self.fi, e)
         if c.kind in ("external", "builtin") and c.target == "builtins.len":
             n_ = self._length_of_filled_local(e, at)
             if n_ is not None:
                 return n_
+            if len(e.args) == 1 and not e.keywords:
+                try:
+                    n_ = self._row_length(self.term(e.args[0], at), at)
+                except Exception:
+                    n_ = None
+                if n_ is not None:
+                    return n_
         args = [self.term(a, at) for a in e.args]
         kw = {k.arg: self.term(k.value, at) for k in e.keywords if k.arg is not None}
         if any(isinstance(a, ast.Starred) for a in e.args) and not any(k.arg is None for k in e.keywords):
